@@ -4,6 +4,10 @@ import Vata.InclUpBdd
 import Vata.Proofs.InclUpBddTotal
 import Vata.BddIsect
 import Vata.BddAbsTD
+import Vata.BddTrimCoded
+import Vata.BddTrimCodedBU
+import Vata.Proofs.BddTrimCodedBU5
+import Vata.Proofs.BddAbsTD
 import Driver.BddShareChk
 import Vata.Properties.C07
 /-! # Driver side of the BDD-encoding checks: `bddincl`, `bddinclall` (C07), `bddh`, `bddtd` (C08) -/
@@ -203,6 +207,15 @@ partial def go (enc : String) (steps res : List String) (k : Nat) (pool : List (
           ⟨Vata.BddAbs.absRules symsA r.1, r.2⟩
       if f.isEmpty && !(taEq ⟨dedupRulesB M.rules, M.final⟩ ⟨dedupRulesB D.rules, D.final⟩) then
         f := f ++ [s!"mismatch step {k} symbolic RemoveUnreachableStates model: {showTA M} implementation {showTA D}"]
+      -- the bottom-up traversal AS CODED (`Vata/BddTrimCodedBU.lean`, `C08_bu_unreach_coded_lang`; fuel above the proved bound)
+      if enc != "td" then
+        let T0 := Vata.BddAbs.ofRules A.rules
+        match Vata.BddTrimCoded.buUnreachCoded T0 A.final (Vata.BddTrimCoded.leafCount T0 + 1) with
+        | some r =>
+          let Mc : TA := ⟨Vata.BddAbs.absRules symsA r.1, r.2⟩
+          if f.isEmpty && !(taEq ⟨dedupRulesB Mc.rules, Mc.final⟩ ⟨dedupRulesB D.rules, D.final⟩) then
+            f := f ++ [s!"mismatch step {k} symbolic RemoveUnreachableStates coded model: {showTA Mc} implementation {showTA D}"]
+        | none => f := f ++ [s!"mismatch step {k} coded bottom-up RemoveUnreachableStates model out of fuel above its proved bound"]
       pool' := pool ++ [some D]; touched := some newIx
     | "useless" =>
       let A ← ent 1; let D ← newDump
@@ -217,6 +230,21 @@ partial def go (enc : String) (steps res : List String) (k : Nat) (pool : List (
           ⟨Vata.BddAbs.absRules symsA r.1, r.2⟩
       if f.isEmpty && !(taEq ⟨dedupRulesB M.rules, M.final⟩ ⟨dedupRulesB D.rules, D.final⟩) then
         f := f ++ [s!"mismatch step {k} symbolic RemoveUselessStates model: {showTA M} implementation {showTA D}"]
+      -- the AND/OR graph of the top-down encoding and the graph traversal of the bottom-up one AS CODED
+      -- (`Vata/BddTrimCoded.lean`, `Vata/BddTrimCodedBU.lean`; `C08_td_useless_coded_lang`, `C08_bu_useless_coded_lang`; fuel above the proved bounds)
+      let Mc? : Option TA := if enc == "td" then
+          let T0 := Vata.BddAbsTD.ofRulesTD A.rules
+          let n := A.final.length + (Vata.BddAbsTD.allKids T0).length
+          (Vata.BddTrimCoded.removeUselessTDCoded T0 A.final (2 * n + 2) (n + 1)).map (fun r => ⟨Vata.BddAbsTD.absRulesTD symsA r.1, r.2⟩)
+        else
+          let T0 := Vata.BddAbs.ofRules A.rules
+          (Vata.BddTrimCoded.buUselessCoded T0 A.final (A.final.length + Vata.BddTrimCoded.leafCount T0 + 1)).map
+            (fun r => ⟨Vata.BddAbs.absRules symsA r.1, r.2⟩)
+      match Mc? with
+      | some Mc =>
+        if f.isEmpty && !(taEq ⟨dedupRulesB Mc.rules, Mc.final⟩ ⟨dedupRulesB D.rules, D.final⟩) then
+          f := f ++ [s!"mismatch step {k} symbolic RemoveUselessStates coded model: {showTA Mc} implementation {showTA D}"]
+      | none => f := f ++ [s!"mismatch step {k} coded RemoveUselessStates model out of fuel above its proved bound"]
       pool' := pool ++ [some D]; touched := some newIx
     | _ => throw s!"unknown step {st}"
     -- no call changes the language of another automaton (tables may be shared: compare languages, not texts)
